@@ -4,6 +4,7 @@ from pyvc.contracts import contract
 contract("uxarray.io._mpas._replace_padding", props=["C01"],
          sizes=["n", "W"],
          params={"verticesOnCell": "arr(int, n, W, owner='fresh')", "nEdgesOnCell": "arr(int, n)"},
+         modifies=["verticesOnCell"],   # works in place (callers pass a private copy)
          returns="arr(int, n, W)",
          ensures=["forall(0, n, 0, W, lambda f, j: result[f, j] == ite(j < nEdgesOnCell[f], old(verticesOnCell)[f, j], FILL))",
                   "shape(result) == (n, W)"],
@@ -12,6 +13,7 @@ contract("uxarray.io._mpas._replace_padding", props=["C01"],
 contract("uxarray.io._mpas._replace_zeros", props=["C01"],
          sizes=["n", "W"],
          params={"grid_var": "arr(int, n, W, owner='fresh')"},
+         modifies=["grid_var"],
          returns="arr(int, n, W)",
          ensures=["forall(0, n, 0, W, lambda f, j: result[f, j] == ite(old(grid_var)[f, j] == 0, FILL, old(grid_var)[f, j]))"],
          raises=[("Exception", "False", "only_if")])
@@ -19,6 +21,40 @@ contract("uxarray.io._mpas._replace_zeros", props=["C01"],
 contract("uxarray.io._mpas._to_zero_index", props=["C01"],
          sizes=["n", "W"],
          params={"grid_var": "arr(int, n, W, owner='fresh')"},
+         modifies=["grid_var"],
          returns="arr(int, n, W)",
          ensures=["forall(0, n, 0, W, lambda f, j: result[f, j] == ite(old(grid_var)[f, j] == FILL, FILL, old(grid_var)[f, j] - 1))"],
          raises=[("Exception", "False", "only_if")])
+
+
+# ---- source-supplied MPAS tables: "carried over with the same meaning, re-indexed consistently" (C01, C03) ---------------------
+_MP = "uxarray.io._mpas."
+_OUT = "entry(out_ds.vars, '{v}').data"
+_IN = "entry(in_ds.vars, '{v}').data"
+
+
+def _tbl(fn, src, dst, padded, mesh_type=None, n="n_row", extra_params=None):
+    """table `src` (1-based, 0 = missing; `padded`: only the first nEdgesOnCell[r] entries of a row are meaningful)"""
+    c = _IN.format(v=src)
+    keep = f"{c}[r, j] != 0" + (f" and j < {_IN.format(v='nEdgesOnCell')}[r]" if padded else "")
+    vars_ = {src: f"arr(int, {n}, W)"}
+    if padded:
+        vars_["nEdgesOnCell"] = f"arr(int, {n})"
+    params = {"in_ds": f"obj('Dataset', owner='caller', vars={vars_!r})", "out_ds": "obj('Dataset', owner='fresh')"}
+    if mesh_type is not None:
+        params["mesh_type"] = repr(mesh_type)
+    contract(_MP + fn, props=["C01", "C03"], variant=(mesh_type or "primal"),
+             sizes=[n, "W"], params=params, returns="none",
+             # MPAS index tables are one-based, 0 marks a missing entry (MPAS mesh specification)
+             requires=[f"forall(0, {n}, 0, W, lambda r, j: {c}[r, j] >= 0)"],
+             ensures=[f"has(out_ds.vars, '{dst}')",
+                      f"forall(0, {n}, 0, W, lambda r, j: {_OUT.format(v=dst)}[r, j] == ite({keep}, {c}[r, j] - 1, FILL))",
+                      # the source dataset's array is left as it was
+                      f"forall(0, {n}, 0, W, lambda r, j: {c}[r, j] == old({c})[r, j])"],
+             options={"frames": True},
+             raises=[("Exception", "False", "only_if")])
+
+
+_tbl("_parse_face_faces", "cellsOnCell", "face_face_connectivity", padded=True)
+_tbl("_parse_node_faces", "cellsOnVertex", "node_face_connectivity", padded=False, mesh_type="primal")
+_tbl("_parse_node_faces", "verticesOnCell", "node_face_connectivity", padded=True, mesh_type="dual")
